@@ -46,6 +46,20 @@ def toLongIrr (obs : List (Nat × Obs)) : List (Nat × List Nat × Rat) :=
   obs.flatMap fun (lab, o) =>
     ((product o.shape).zip o.vals).filterMap fun (pt, v) => v.map fun y => (lab, pt, y)
 
+/-- The tree with the label-agnostic iterator (candidate repair c13b): iteration
+re-labels the observations by position before `to_long` reads the label. -/
+def relabel (obs : List (Nat × Obs)) : List (Nat × Obs) :=
+  obs.zipIdx.map fun p => (p.2, p.1.2)
+
+def toLongIrrImpl (obs : List (Nat × Obs)) : List (Nat × List Nat × Rat) := toLongIrr (relabel obs)
+
+/-- `np.diag` accepts a 1-D array (builds a matrix) or a 2-D array (extracts the diagonal)
+and raises `ValueError("Input must be 1- or 2-d.")` otherwise; result shape. -/
+def npDiagShape : List Nat → Option (List Nat)
+  | [n] => some [n, n]
+  | [n, m] => some [min n m]
+  | _ => none
+
 /-! ### The two encodings of a 1-D irregular curve -/
 
 /-- Ragged encoding of one curve given on a common grid `g` with missing cells:
